@@ -270,6 +270,13 @@ func jsonType(v reflect.Value) (string, bool) {
 		}
 		return "number", true
 	}
+	if v.Type() == jsonNumberType {
+		// A json.Number is a number, although its Kind is String.
+		if r, ok := jsonNumber(v); ok && r.IsInt() {
+			return "integer", true
+		}
+		return "number", true
+	}
 	switch v.Kind() {
 	case reflect.Bool:
 		return "boolean", true
@@ -283,6 +290,8 @@ func jsonType(v reflect.Value) (string, bool) {
 		return "", false
 	}
 }
+
+var jsonNumberType = reflect.TypeFor[json.Number]()
 
 func assert(cond bool, msg string) {
 	if !cond {
